@@ -58,7 +58,12 @@ def case(draw, tier):
     if policy != "conflating" and draw(st.integers(0, 3)) == 0:      # (the drain before the stop race counts deliveries of both)
         second = [{"ph": ph, "v": 9000 + j, "blocking": False, "delay_us": draw(st.sampled_from([0, 0, 50, 300])), "src": "ps2"}
                   for j, ph in enumerate(sorted(draw(st.lists(st.sampled_from([1, 1, 3, 3, 4]), min_size=1, max_size=5))))]
-    return {"second": second, "policy": policy, "capacity": cap, "latch": latch, "producers": producers, "stop_after_us": draw(st.sampled_from([0, 0, 20, 200, 2000])),
+    # a sink that sends a value back into the source from the EVALUATION thread when it sees a chosen value (queue policy)
+    loopback = None
+    cand = [st_["v"] for st_ in producers[0] if st_["ph"] in (1, 3)]
+    if policy == "queue" and cand and draw(st.integers(0, 3)) == 0:
+        loopback = {"on": draw(st.sampled_from(cand)), "v": 7777}
+    return {"loopback": loopback, "second": second, "policy": policy, "capacity": cap, "latch": latch, "producers": producers, "stop_after_us": draw(st.sampled_from([0, 0, 20, 200, 2000])),
             "sink_sleep_us": sink_sleep}
 
 
@@ -75,6 +80,8 @@ def check(case, ctx) -> Result:
         sink["latch_on"] = -1
     if case.get("sink_sleep_us"):
         sink["sleep_us"] = case["sink_sleep_us"]
+    if case.get("loopback"):
+        sink["loop_send"] = dict(case["loopback"], src="ps")
     prog = {"mode": "rt", "max_wait_slice_us": 3600000000, "stmts": [{"id": "ps", "op": "push_src", "schema": schema, "policy": policy, "capacity": cap}, sink]}
     producers_all = list(case["producers"])
     if case.get("second"):
@@ -140,6 +147,12 @@ def check(case, ctx) -> Result:
         elif any(b <= a for (a, _), (b, _) in zip(d2, d2[1:])):
             out2.append(("delivery_time_not_increasing", f"second source delivery times {[t for t, _ in d2][:10]}"))
     accepted = {s["v"]: s for s in sends if s["ok"]}
+    if case.get("loopback"):
+        trig = next((e for e in resp["trace"] if e[0] == "ev" and e[3] == "sink" and isinstance(e[7], dict) and "loop" in e[7]), None)
+        if trig is not None and trig[7]["loop"][0]:
+            ph_t = next((s_["ph"] for s_ in sends if s_["v"] == case["loopback"]["on"]), 3)
+            accepted[7777] = {"p": -2, "v": 7777, "ph": ph_t, "sb": trig[7]["loop"][1], "sa": trig[7]["loop"][2], "ok": True}
+            res.labels.append("send_from_evaluation_thread")
     if latch_info and latch_info["ok"]:
         accepted[-1] = {"p": -1, "v": -1, "ph": 1.5, "sb": latch_info["sb"], "sa": latch_info["sa"], "ok": True}
     out = []
@@ -224,7 +237,7 @@ def check(case, ctx) -> Result:
     if post:
         out.append(("accepted_after_stop", f"send of {post[0]['v']} was accepted after run() had returned"))
     # exact count while latched
-    if latch_info and latch_info["latched"] and cap > 0 and not case.get("second"):   # (the controller's counters span both sources)
+    if latch_info and latch_info["latched"] and cap > 0 and not case.get("second") and not case.get("loopback"):   # (the controller's counters span both sources)
         pending = latch_info["accepted"] - latch_info["delivered"]
         ph2 = [s for s in sends if s["ph"] == 2]
         exp_acc = max(0, min(len(ph2), cap - pending))
